@@ -350,6 +350,10 @@ def run(ctx):
     check_validate(ctx)
     check_pipelines(ctx)
     check_conflict_exemption(ctx)
+    from .lib.x_reload import check_setting
+    check_setting(ctx, "K2-schema-cache-refreshed", "SCHEMA", "reload_schema",
+                  "entries on this server are validated against a stale in-memory schema",
+                  ("EntryClass::ClassType", "EntryClass::AttributeType"))
 
 
 # ---------------------------------------------------------------------------------------------------------------------
